@@ -164,3 +164,136 @@ class TimegridSetWacc(Contract):
         years = lambda k: (Dt.f(k) * sym.to_real(un) / sym.to_real(day)) / 365
         yield ('C02.discount', z3.And(lift(dff.n) == T, S.forall(T, lambda k: sym.cmpop('Eq', dff.f(k), sym.rpow(1 + w, -years(k))))))
         yield ('C02.discount.positive', S.forall(T, lambda k: S.gt(dff.f(k), 0)))
+
+
+def _window_handler(ctx):
+    """callee contract of Timegrid.set_restricted_grid(start, end, freq) as seen by Asset.set_timegrid: records the
+    call; (its own contract is TimegridSetRestricted below)"""
+    def h(I, self_obj, args, kwargs):
+        ctx['restricted_call'] = (self_obj, list(args), dict(kwargs))
+        I.log_write(self_obj, 'restricted')
+        self_obj.set('restricted', Obj('Timegrid', __token__='restricted grid for the recorded arguments'))
+        return None
+    return h
+
+
+def _wacc_handler(ctx):
+    def h(I, self_obj, args, kwargs):
+        ctx['wacc_call'] = (self_obj, list(args))
+        I.log_write(self_obj, 'discount_factors')
+        self_obj.set('discount_factors', Obj('ndarray', __token__='discount factors for the recorded wacc'))
+        return None
+    return h
+
+
+@register
+class AssetSetTimegrid(Contract):
+    """Asset.set_timegrid(timegrid): the derived cache is rebuilt from the asset's own parameters on every call --
+    discount factors for self.wacc, restricted grid for (self.start, self.end, self.freq) -- whatever an earlier
+    call (of this or another asset sharing the grid object) left there (C10.functional for the grid cache)."""
+    qualname = 'assets:Asset.set_timegrid'
+    prefix = 'C10.set_timegrid'
+    properties = ('C10', 'C02', 'C08')
+
+    def cases(self):
+        return [dict(freq=f) for f in (None, 'own')]
+
+    def harness(self, H, case):
+        g = mk_root_grid(H)
+        g.attrs.pop('__closed__', None)
+        g.set('restricted', Havoc('stale cache: restricted grid of an earlier set-up'))
+        g.set('discount_factors', Havoc('stale cache: discount factors of an earlier set-up'))
+        w = H.real('wacc')
+        tz = g.get('tz')
+        st, en = TS(H.int('a_start'), tz), TS(H.int('a_end'), tz)
+        fr = None if case['freq'] is None else H.str('a_freq')
+        self_obj = Obj('Asset', name=H.str('asset_name'), wacc=w, start=st, end=en, freq=fr, profile=None)
+        ctx = dict(self_obj=self_obj, args=[g], g=g, w=w, st=st, en=en, fr=fr)
+        return ctx
+
+    def callees(self, case, ctx=None):
+        return {'basic_classes:Timegrid.set_wacc': _wacc_handler(ctx),
+                'basic_classes:Timegrid.set_restricted_grid': _window_handler(ctx)}
+
+    def post(self, H, case, outcome, I, ctx):
+        so, g = ctx['self_obj'], ctx['g']
+        if outcome[0] == 'raise':
+            # a coarser portfolio frequency than the asset's is refused (documented assertion)
+            if case['freq'] is None:
+                yield ('C10.set_timegrid.no_raise', False)
+            else:
+                from pyvc.libmodel import freq_ns as fn
+                yield ('C10.set_timegrid.refuses_only_finer_asset_freq', fn(I, ctx['fr']) < fn(I, g.get('freq')))
+            return
+        if outcome[0] == 'havoc':
+            yield ('C10.set_timegrid.modelled', Havoc(outcome[1]))
+            return
+        yield ('C10.set_timegrid.grid_installed', so.has('timegrid') and so.get('timegrid') is g)
+        wc = ctx.get('wacc_call')
+        yield ('C10.set_timegrid.discount_for_own_wacc', wc is not None and wc[0] is g and len(wc[1]) == 1 and
+               (wc[1][0] is ctx['w'] or z3.is_true(z3.simplify(lift(wc[1][0]) == ctx['w']))))
+        rc = ctx.get('restricted_call')
+        ok = rc is not None and rc[0] is g and len(rc[1]) == 3 and rc[1][0] is ctx['st'] and rc[1][1] is ctx['en'] and \
+            (rc[1][2] is ctx['fr'] or (ctx['fr'] is not None and rc[1][2] is ctx['fr']))
+        yield ('C08.set_timegrid.window_for_own_start_end_freq', ok)
+        # frame: nothing but the derived cache is written
+        allowed = {(id(so), 'timegrid'), (id(g), 'discount_factors'), (id(g), 'restricted')}
+        writes = {(id(o), what) for (o, what, ln, md) in I.writes} if I is not None else allowed
+        yield ('C10.set_timegrid.frame', writes <= allowed)
+
+    # run-time twin with a stale cache on the real grid object
+    def schema(self, case):
+        return [('g_T', 'int', None), ('wacc', 'real', None), ('stale_wacc', 'real', None), ('win_a', 'int', None), ('win_b', 'int', None),
+                ('stale_a', 'int', None)]
+
+    def sample(self, case, rng):
+        from pyvc import native as N
+        T = rng.randint(1, 5)
+        a = rng.randint(0, T)
+        b = rng.randint(a, T)
+        return N.Params(g_T=T, wacc=rng.choice([0.0, 0.0, 0.1, 0.5]), stale_wacc=rng.choice([0.0, 0.3, 0.8]), win_a=a, win_b=b,
+                        stale_a=rng.randint(0, T))
+
+    def native(self, case, P):
+        import numpy as np
+        import eaopack as eao
+        from pyvc import native as N
+        T = int(P['g_T'])
+        tg, _ = N.synthetic_grid(T, None)
+        pts = list(tg.timepoints) + [tg.end]
+        # stale state left by "another asset" sharing the grid object
+        tg.set_wacc(float(P['stale_wacc']))
+        tg.set_restricted_grid(pts[int(P['stale_a'])], None)
+        a = eao.assets.Asset(name='asset_name', start=pts[int(P['win_a'])], end=pts[int(P['win_b'])], wacc=float(P['wacc']),
+                             freq=None if case['freq'] is None else 'h')
+        call = lambda: (a.set_timegrid(tg), a)[1]
+        tg2, _ = N.synthetic_grid(T, None)
+        tg2.set_wacc(float(P['wacc']))
+        ctx = dict(native_expect=dict(df=[float(x) for x in tg2.discount_factors], I=list(range(int(P['win_a']), int(P['win_b'])))),
+                   tg=tg)
+        return call, ctx
+
+
+def _native_set_timegrid_post(self, H, case, outcome, I, ctx):
+    pass
+
+
+_orig_post = AssetSetTimegrid.post
+
+
+def _post(self, H, case, outcome, I, ctx):
+    if I is not None:
+        yield from _orig_post(self, H, case, outcome, I, ctx)
+        return
+    # run-time twin: compare the real derived cache with a fresh grid's
+    if outcome[0] != 'return':
+        yield ('C10.set_timegrid.no_raise', False)
+        return
+    tg = ctx['tg']
+    exp = ctx['native_expect']
+    import numpy as np
+    yield ('C10.set_timegrid.discount_for_own_wacc', bool(np.allclose(np.asarray(tg.discount_factors, dtype=float), exp['df'], rtol=1e-12, atol=0)))
+    yield ('C08.set_timegrid.window_for_own_start_end_freq', [int(v) for v in tg.restricted.I] == exp['I'])
+
+
+AssetSetTimegrid.post = _post
